@@ -91,6 +91,14 @@ def build_events():
         ('m5:S44 dissimilar inserts (marker cells, no ids)', S['S44'], d1(S['S44'], 'cell-insert:C3@3'), d1(S['S44'], 'cell-insert:M3@3'), ['inline', None, None, True]),
         ('m6:S45 dissimilar inserts (marker cells, ids)', S['S45'], d1(S['S45'], 'cell-insert:C3@3'), d1(S['S45'], 'cell-insert:M3@3'), ['inline', None, None, True]),
     ]
+    # an API-level merge with the documented generic strategy "fail": raises by design when both sides patch the same line; the
+    # exception must not leave anything behind that changes later merges (same-line patch/patch enters _merge_strings twice)
+    def tweak(nb, text):
+        nb = copy.deepcopy(nb)
+        nb['cells'][0]['source'] = nb['cells'][0]['source'].replace('compute(1)', text)
+        return nb
+    merges.append(('m7:S45 same-line patches, strategy fail (raises by design)', S['S45'], tweak(S['S45'], 'compute(3)'), tweak(S['S45'], 'compute(5)'), ['fail', None, None, True]))
+    merges.append(('m8:S45 same-line patches, use-remote', S['S45'], tweak(S['S45'], 'compute(3)'), tweak(S['S45'], 'compute(5)'), ['use-remote', None, None, True]))
     targets = [
         ('t0:all on', dict(sources=True, outputs=True, attachments=True, metadata=True, identifier=True, details=True)),
         ('t1:no sources', dict(sources=False, outputs=True, attachments=True, metadata=True, identifier=True, details=True)),
@@ -196,9 +204,15 @@ def execute(ev):
     if k == 'merge':
         from ..mergecore import args_for
         from nbdime.merging.notebooks import merge_notebooks
+        cfg = tuple(ev['cfg'])
+        if cfg[0] == 'fail':
+            args = args_for(('inline',) + cfg[1:])
+            args.merge_strategy = 'fail'        # not offered by the CLI; a library caller can pass any generic strategy
+        else:
+            args = args_for(cfg)
         try:
             with time_limit(30):
-                m, decs = merge_notebooks(U.to_node(ev['base']), U.to_node(ev['local']), U.to_node(ev['remote']), args_for(tuple(ev['cfg'])))
+                m, decs = merge_notebooks(U.to_node(ev['base']), U.to_node(ev['local']), U.to_node(ev['remote']), args)
             # ids of conflict-marker cells come from nbformat's random generator (a counter in this harness): not an observation
             import re
             text = re.sub(r'verif-id-\d+', '<generated-id>', canon([m, decs]))
@@ -467,7 +481,7 @@ def run(tier, seed):
     from ..mergecore import args_for
     for e in events:
         if e['kind'] == 'merge':
-            args_for(tuple(e['cfg']))      # parser construction happens before any fork (it reads configuration, touches no differ state)
+            args_for(tuple(e['cfg']) if e['cfg'][0] != 'fail' else ('inline',) + tuple(e['cfg'][1:]))      # parser construction happens before any fork (it reads configuration, touches no differ state)
     states = reachable_states(events, depth - 1)
     ref = compute_reference(states)
     _G['events'] = events
